@@ -59,6 +59,8 @@ pub const TWO: usize = 3;
 pub const LIST: usize = 4;
 /// same constructors as BOOL in the opposite declaration order (C19: tags)
 pub const BOOL_REV: usize = 5;
+/// one constructor holding a pair of booleans (nested refutable patterns)
+pub const PB: usize = 6;
 
 pub fn data_decls() -> Vec<DataDecl> {
     vec![
@@ -68,6 +70,7 @@ pub fn data_decls() -> Vec<DataDecl> {
         DataDecl { name: "Two", recursive: false, ctors: vec![("+L", VT::Int), ("+R", VT::Prod(vec![VT::Int, VT::Data(BOOL)]))] },
         DataDecl { name: "List", recursive: true, ctors: vec![("+Nil", VT::Unit), ("+Cons", VT::Prod(vec![VT::Int, VT::Data(LIST)]))] },
         DataDecl { name: "BoolR", recursive: false, ctors: vec![("+F", VT::Unit), ("+T", VT::Unit)] },
+        DataDecl { name: "PB", recursive: false, ctors: vec![("+P", VT::Prod(vec![VT::Data(BOOL), VT::Data(BOOL)]))] },
     ]
 }
 
